@@ -46,7 +46,7 @@ def deductive(rep: Report, tier):
     secs = time.time() - t0
     for q, s in summ.items():
         rel = q.split("::")[0]
-        if rel not in ANCHOR:
+        if rel not in ANCHOR and rel not in AUX:
             continue
         rep.function(q)
         fn = q.split("::")[1]
@@ -63,7 +63,8 @@ def deductive(rep: Report, tier):
                                kind="frame"))
         rep.add(Obligation(f"{P}.{fn}.time.only_timing_fields", q, "all-shapes", smt.PROVED if not s.time_leaks else smt.REFUTED, "effect-analysis", 0.0,
                            {"leaks": s.time_leaks[:5]} if s.time_leaks else None, kind="frame"))
-        if s.rng:
+        if s.rng and rel in ANCHOR:      # reproducibility from the global seed is claimed for the solvers / decompositions (the property's anchors);
+            #                               the image utilities document an optional Generator argument with a fresh default
             ok = "local_unseeded" not in s.rng
             rep.add(Obligation(f"{P}.{fn}.rng.reproducible", q, "all-shapes", smt.PROVED if ok else smt.REFUTED, "effect-analysis", 0.0,
                                {"rng": sorted(s.rng)} if not ok else None, kind="frame"))
